@@ -256,3 +256,45 @@ def _strftime_items(I, ci, fmt):
     if bad:
         items.append(Adt('Item', 6, []))
     return ListIter(items, kind='StrftimeItems')
+
+
+# ------------------------------------------------------------------ Datelike / Timelike / Weekday accessors
+# the same civil-from-days reference as the strftime model; the Kani harnesses prove year/month/day/ordinal/weekday/
+# hour/minute/second of the compiled chrono equal to this reference for every second 1970-2199
+def _ts_of(dt):
+    dt = peel(dt)
+    if isinstance(dt, Opaque) and dt.kind == 'DateTime':
+        return dt.state
+    if isinstance(dt, Opaque) and dt.kind == 'DateTimeLocal':
+        return dt.state[0] + dt.state[1]
+    raise Unsupported('calendar field of %r' % (dt,))
+
+
+def _field_model(name, adjust=0):
+    def f(I, ci, dt):
+        v = fields(_ts_of(dt))[name]
+        return v + adjust if adjust else v
+    return f
+
+
+for _m, _f, _a in (('year', 'year', 0), ('month', 'month', 0), ('month0', 'month', -1), ('day', 'day', 0), ('day0', 'day', -1),
+                   ('ordinal', 'ordinal', 0), ('ordinal0', 'ordinal', -1)):
+    model('<Datelike>::' + _m)(_field_model(_f, _a))
+for _m, _f in (('hour', 'hour'), ('minute', 'minute'), ('second', 'second')):
+    model('<Timelike>::' + _m)(_field_model(_f))
+
+
+@model('<Datelike>::weekday')
+def _weekday(I, ci, dt):
+    return Opaque('Weekday', fields(_ts_of(dt))['weekday_mon0'])
+
+
+@model('Weekday::num_days_from_monday', 'Weekday::number_from_monday', 'Weekday::num_days_from_sunday', 'Weekday::number_from_sunday')
+def _weekday_num(I, ci, wd):
+    m0 = peel(wd).state
+    if ci.method == 'num_days_from_monday':
+        return m0
+    if ci.method == 'number_from_monday':
+        return m0 + 1
+    s0 = imod(m0 + 1, 7)
+    return s0 if ci.method == 'num_days_from_sunday' else s0 + 1
